@@ -43,8 +43,18 @@ Definition check_multiset (i : input) (o : obs) : N :=
 
 (* C05: the sequence of sort-key tuples must agree (rows that tie may come in any order), the rows
    must be the same multiset, and the two lengths agree *)
-Definition key_tuple (keys : list (list string)) (r : value) : list value :=
-  map (fun k => match reader k r with Ok v => v | _ => VStr "<<error>>" end) keys.
+(* the comparator stops at the first NULL key (Compare returns as soon as the left key is nil), so
+   later keys of such a row do not determine its position: they are masked *)
+Fixpoint key_tuple (keys : list (list string)) (r : value) : list value :=
+  match keys with
+  | [] => []
+  | k :: rest =>
+      match reader k r with
+      | Ok VNull => VNull :: map (fun _ => VNull) rest
+      | Ok v => v :: key_tuple rest r
+      | _ => VStr "<<error>>" :: key_tuple rest r
+      end
+  end.
 
 Definition order_keys (q : stmt) : list (list string) :=
   match q with SSelect s => map fst (s_order s) | _ => [] end.
